@@ -156,7 +156,7 @@ def run(rep, tier, pool, variants=("shipped",)):
     cases = build_inputs(tier)
     res = pool.call("harness.props.c09:check_one", [(s,) for _, s in cases], timeout=120)
     for (kind, src), o in zip(cases, res):
-        if o.get("skip") or o.get("k") in ("hang", "crash", "worker-exc"):
+        if o.get("skip") or o.get("k") in ("hang", "crash", "worker-exc", "not-run"):
             rep.case(src, False)
             rep.count(f"{kind.split(':')[0]}:skip-{o.get('skip') or o.get('k')}")
             continue
